@@ -210,6 +210,7 @@ def build(I, sort, hint):
         if sort.total:
             m.has = lambda t: z3.BoolVal(True)
             m.has_decl = None
+        m.val_range = (sort.val_lo, sort.val_hi)
         if sort.val_lo is not None or sort.val_hi is not None:
             k = z3.Const(I.p.fresh_name('k'), ks)
             body = []
